@@ -23,3 +23,30 @@ Example C11_ex :
   let ts := [t 1 1 [r [1] 1 (RVal [7]); r [2] 1 (RVal [7]); r [3] 1 (RVal2 [8] [7])]; t 2 2 [r [1] 2 RDel; r [2] 2 (RVal [9])]] in
   tables_sorted ts /\ merged_refs_for true ts [7] = [r [3] 1 (RVal2 [8] [7])].
 Proof. cbv zeta. split; [split; repeat constructor|vm_compute; reflexivity]. Qed.
+
+(* ---- single tables: the whole of C11's table part ---- *)
+From RT Require Import Model.Result Model.RecCodec Model.Block Model.Writer Model.Reader
+  Proofs.BlockProofs Proofs.TableProofs Proofs.RefsForProofs.
+Local Open Scope N_scope.
+
+(* For every table the writer produces -- with an object index, without one
+   (few ref blocks, SkipIndexObjects, abbreviated id of 32 bytes), or with an
+   index whose position lists were dropped because they did not fit -- and for
+   EVERY object id (occurring, absent, sharing the abbreviated prefix with an
+   occurring one, shorter than the abbreviation): RefsFor(oid) returns exactly
+   the refs whose value or peeled value equals oid, each once, in name order,
+   with the fields a scan returns (absolute update index). *)
+Theorem C11_table : forall deflate inflate,
+  zlib_ok deflate inflate ->
+  (forall x n, (n < length (deflate x))%nat -> inflate (firstn n (deflate x)) = ITrunc) ->
+  (forall x, N.of_nat (length x) < 16777216 -> N.of_nat (length (deflate x)) < 1073741824) ->
+  forall cfg min max refs logs data,
+  cfg_ok cfg -> max < two64 -> min <= max -> refs_ok cfg min max refs -> logs_ok cfg logs ->
+  N.of_nat (length data) < two59 ->
+  write_table deflate cfg min max refs logs = Ok (false, data) ->
+  exists r, rd_open data = Ok r /\
+    forall oid, refs_for inflate r oid = Ok (map RecRef (filter (points_to oid) refs)).
+Proof. exact table_refs_for_all. Qed.
+Print Assumptions C11_table.
+
+Definition C11_nonvacuous := table_refs_for_stored.
